@@ -103,9 +103,18 @@ Definition sign_enc_payload (h : handler) (payload ts r : pystr) : wire :=
       end
   end.
 
+(* str(int(utc_time_sans_frac())): decimal rendering straight from the binary representation (PyStr.str_of_Z
+   goes through unary nat and must not be evaluated on epoch-sized numbers) *)
+Definition dec_of_Z (z : Z) : pystr :=
+  match z with
+  | Z0 => [48]
+  | Zpos p => uint_codes (Pos.to_uint p)
+  | Zneg p => 45 :: uint_codes (Pos.to_uint p)
+  end.
+
 (* make_cookie_content(name, value, typ, timestamp)["value"]; `now` is utc_time_sans_frac() *)
 Definition make_cookie (h : handler) (value typ ts : pystr) (now : Z) (r : pystr) : wire :=
-  let ts := match ts with [] => str_of_Z now | _ => ts end in
+  let ts := match ts with [] => dec_of_Z now | _ => ts end in
   match value, typ with
   | [], [] => []
   | _, _ => sign_enc_payload h (payload_of value typ) ts r
